@@ -676,7 +676,30 @@ def vprange_all(ctx):
         if not (np.array_equal(ref[0], comp[0]) and np.allclose(ref[1], comp[1], rtol=1e-9)):
             ctx.violation(sub, {"what": "sequential virtualised source vs compiled", "cols": cols}, {"kind": "vprange_bind", "cols": cols},
                           "the kernel's source run sequentially under CPython differs from the compiled kernel")
-    ctx.sample(sub, {"rows": 2, "time_steps": 4, "granularity": "line"})
+    # the thread count the kernel may ask for (numba.get_num_threads) is an environment answer: every count 1..6 on
+    # cubes of 1..7 rows, prange iterations run in order - the result may not depend on the answer
+    from .. import interp
+    for rows in range(1, 8):
+        t = np.arange(4)
+        cube = np.empty((4, rows, 2), dtype="int16")
+        for r in range(rows):
+            for c in range(2):
+                cube[:, r, c] = (50 + 30 * np.sin(t + r) + 11 * c + (t * 7 + r) % 5).astype("int16")
+        seq = build(lambda body, n: [body(i) for i in range(n)])
+        ref = None
+        for nthreads in range(1, 7):
+            interp.VIRTUAL_THREADS[0] = nthreads
+            try:
+                out = seq(cube.copy(), 0.9, 0)
+            finally:
+                interp.VIRTUAL_THREADS[0] = 1
+            ctx.count(sub, evaluations=1, states=1, transitions=1, traces_validated_against_impl=1, nontrivial=int(nthreads > 1))
+            if ref is None:
+                ref = out
+            elif not (np.array_equal(out[0], ref[0]) and np.array_equal(out[1], ref[1])):
+                ctx.violation(sub, {"what": "virtual thread count", "rows": rows, "threads": nthreads}, {"kind": "vprange_bind", "cols": 1},
+                              f"ws2doptvplc_tyx source on {rows} rows: with get_num_threads() = {nthreads} the result differs from the one with 1 thread")
+    ctx.sample(sub, {"rows": 2, "time_steps": 4, "granularity": "line", "virtual_thread_counts": "1..6 on 1..7 rows"})
 
 
 def vprange_tasks(ctx):
